@@ -23,6 +23,7 @@ import (
 	"hash/fnv"
 	"os"
 	"runtime"
+	"runtime/debug"
 	"runtime/pprof"
 	"sort"
 	"sync"
@@ -343,9 +344,7 @@ func (w *worker) runPlan(st *stream, ops []op, part string) {
 	c[nm.nonUnique] += int64(j.nonUnique)
 	c[nm.errs] += int64(errs)
 	c[nm.returned] += int64(len(outs))
-	if int64(j.maxLag) > w.s.mx[nm.lag] {
-		w.s.mx[nm.lag] = int64(j.maxLag)
-	}
+	w.s.mx[nm.lag] = max(w.s.mx[nm.lag], int64(j.maxLag))
 	if j.judged > 0 && len(ops) > 0 {
 		w.s.distinct[arrHash(specHash(st.spec), arr)] = struct{}{}
 	}
@@ -584,7 +583,7 @@ func finish() {
 		run.Assume("frames that are not returned intact from the unfaulted stream (encoder / round-trip defects, C03) are reported once under their own key and treated as not clean")
 		run.Finish(evals.Load(),
 			"one evaluation = one fault plan applied to one encoded stream and decoded by a fresh decoder. Systematic: per decoder x parameter set x payload limit, "+
-				"6-7 frame streams, faulted frame of every packetisation kind between every kind of neighbour, every packet position x {drop, dup, swap-next, swap-prev} + "+
+				"6-7 frame streams (+ 2 untouched epilogue frames), faulted frame of every packetisation kind between every kind of neighbour, every packet position x {drop, dup, swap-next, swap-prev} + "+
 				"drop-frame / dup-frame on one frame and all pairs on two adjacent frames, half of the streams with the sequence-number wrap inside the faulted frame; "+
 				"sampled: PRNG streams of 6-10 frames with 1-13 PRNG faults incl. bursts, displacements and late duplicates. "+
 				"distinct_nontrivial = distinct (stream, arrival order) pairs with at least one fault in which at least one claimable frame was fully checked")
@@ -638,6 +637,7 @@ func replay() {
 
 func main() {
 	run = vlib.Start("C07", "fault_enumeration")
+	debug.SetGCPercent(400)
 	if run.Replay != "" {
 		replay()
 		return
